@@ -32,6 +32,17 @@ structure C06Case where
   want : Option String     -- none: the property does not constrain this input
   cls : String
   branch : String
+  style : String := ""     -- how the harness prints a value: "" `T:v`, "ov" `ov(T,tag):v`, "<e>,<r>" `sc(ov(T,tag),e,r):v`
+
+/-- what the tags demand of a chain of scaling steps on a variable of type `overflow_integer<S, tag>` followed by
+the conversion to `D`: every step is the exact operation (`true`: multiply, `false`: divide toward zero) followed by
+the tag's reaction in the variable's type -/
+def chainWant (tag : OvTag) (S D : IntTy) : List (Bool × Int) → Int → Res TV
+  | [], x => Spec.checkedWant tag D x
+  | (isMul, p) :: rest, x =>
+    match Spec.checkedWant tag S (if isMul then x * p else x.tdiv p) with
+    | .ok y => chainWant tag S D rest y.2
+    | o => o
 
 def c06Eval (toks : List String) : Option C06Case :=
   match toks with
@@ -50,7 +61,7 @@ def c06Eval (toks : List String) : Option C06Case :=
       | some e => if e > T.max then "/pos" else if e < T.lowest then "/neg" else ""
       | none => "/na"
     some { model := m, want := exact.map (c06Want tag T), cls := c06Class path kind op L R l r,
-           branch := s!"{kind}/{op}/{tag.toString}{ovf}" }
+           branch := s!"{kind}/{op}/{tag.toString}{ovf}", style := if kind == "wbin" then "ov" else "" }
   | ["neg", _path, tag, lt, l] => do
     let tag ← parseOvTag tag; let L ← parseIntTy lt; let l ← l.toInt?
     let T := promote L
@@ -60,6 +71,27 @@ def c06Eval (toks : List String) : Option C06Case :=
     let tag ← parseOvTag tag; let S ← parseIntTy st; let D ← parseIntTy dt; let v ← v.toInt?
     some { model := checkedConvert tag D (S, v), want := some (c06Want tag D v), cls := "",
            branch := s!"cvt/{tag.toString}" ++ (if D.inRange v then "" else "/ovf") }
+  | ["wcvt", _path, tag, kind, st, dt, v] => do
+    -- an overflow_integer converted as a number: constructor from a related / unrelated wrapper or a built-in,
+    -- assignment, function argument, conversion operator to a built-in (`wb`: prints the bare value)
+    let tag ← parseOvTag tag; let S ← parseIntTy st; let D ← parseIntTy dt; let v ← v.toInt?
+    guard (["ww", "wa", "wf", "wb", "bw", "rw", "ew"].contains kind)
+    some { model := wrapperConvert tag D (S, v), want := some (c06Want tag D v), cls := "",
+           branch := s!"wcvt/{kind}/{tag.toString}" ++ (if v > D.max then "/pos" else if v < D.lowest then "/neg" else "") ++
+             (if S.signed && !D.signed && S.digits ≤ D.digits then "/s2u_wide" else ""),
+           style := if kind == "wb" then "" else "ov" }
+  | ["sxr", path, tag, st, es, rs, dt, ed, rd, v] => do
+    -- scaled_integer<S, power<eS, rS>> -> scaled_integer<overflow_integer<D, tag>, power<eD, rD>>, rS ≠ rD
+    let path ← parsePath path; let tag ← parseOvTag tag; let S ← parseIntTy st; let D ← parseIntTy dt
+    let eS ← es.toInt?; let rS ← rs.toNat?; let eD ← ed.toInt?; let rD ← rd.toNat?; let v ← v.toInt?
+    guard (rS != rD)
+    let stages : List (Bool × Int) :=
+      (if eS > 0 then [(true, (rS : Int) ^ eS.toNat)] else []) ++ (if eD < 0 then [(true, (rD : Int) ^ (-eD).toNat)] else []) ++
+      (if eS < 0 then [(false, (rS : Int) ^ (-eS).toNat)] else []) ++ (if eD > 0 then [(false, (rD : Int) ^ eD.toNat)] else [])
+    let want := chainWant tag S D stages v
+    let sig := match want with | .ok _ => "" | _ => "/signal"
+    some { model := radixConvert path tag S eS rS D eD rD v, want := some (showRes showTV want), cls := "",
+           branch := s!"sxr/{tag.toString}/{rS}to{rD}{sig}", style := s!"{eD},{rD}" }
   | ["cvtf", _path, tag, fm, dt, x] => do
     let tag ← parseOvTag tag; let f ← FloatIO.parseFmt fm; let D ← parseIntTy dt; let x ← Fmt.ofHex? f x
     -- exact result: the value truncated toward zero
@@ -78,15 +110,12 @@ def c06Eval (toks : List String) : Option C06Case :=
     some { model := checkedConvertFloat tag f D x, want := want, cls := "", branch := s!"cvtf/{tag.toString}/{fm}{ovf}" }
   | _ => none
 
-def isWrapped (toks : List String) : Bool := toks.head? == some "wbin"
-
-/-- the wrapped variant prints `ov(T,tag):v` instead of `T:v` -/
-def c06Show (toks : List String) (tag : String) (s : String) : String :=
-  if isWrapped toks then
-    match s.splitOn ":" with
-    | [t, v] => s!"ov({t},{tag}):{v}"
-    | _ => s
-  else s
+/-- the wrapped variants print `ov(T,tag):v` / `sc(ov(T,tag),e,r):v` instead of `T:v` -/
+def c06Show (style : String) (tag : String) (s : String) : String :=
+  if style == "" then s else
+  match s.splitOn ":" with
+  | [t, v] => if style == "ov" then s!"ov({t},{tag}):{v}" else s!"sc(ov({t},{tag}),{style}):{v}"
+  | _ => s
 
 /-- `winc <path> <tag> <pre+|pre-|post+|post-> <T> <l>`: `++`/`--` on overflow_integer<T, tag> is `x += 1` under the
 tag (tagged addition in the promoted type, then the tagged conversion back to `T`); the implementation prints
@@ -116,22 +145,8 @@ def checkC06 (toks : List String) (res : String) : Option Verdict :=
   | none => do
   let c ← c06Eval toks
   let tag := toks.getD 2 ""
-  let m := c06Show toks tag (showRes showTV c.model)
-  let spec := c.want.map (fun w => c06Show toks tag w == res)
+  let m := c06Show c.style tag (showRes showTV c.model)
+  let spec := c.want.map (fun w => c06Show c.style tag w == res)
   some { model := m, spec := spec, cls := c.cls, branch := c.branch, nontrivial := c.want.isSome }
-
-/-- C07: the evaluation is defined (no UB, no internal `unreachable`, no crash) -/
-def checkC07 (toks : List String) (res : String) : Option Verdict :=
-  match c06Winc toks with
-  | some (m, _, br) =>
-    let bad := res == "UB" || res == "UNREACHABLE" || res == "SEGV" || res == "ABORT" || res == "TIMEOUT"
-    some { model := m, spec := some (!bad), branch := br, nontrivial := true }
-  | none => do
-  let c ← c06Eval toks
-  let tag := toks.getD 2 ""
-  let m := c06Show toks tag (showRes showTV c.model)
-  let bad := res == "UB" || res == "UNREACHABLE" || res == "SEGV" || res == "ABORT" || res == "TIMEOUT"
-  let cls := if c.cls.isEmpty then "" else "C07." ++ (c.cls.drop 4).toString
-  some { model := m, spec := c.want.map (fun _ => !bad), cls := cls, branch := c.branch, nontrivial := c.want.isSome }
 
 end Cnl.Drv
